@@ -74,6 +74,10 @@ func c38Delete(s *orcStep, res *run.Result) {
 		res.Inc("skipped_board_emptied_and_printed_without_map")
 		return
 	}
+	if s.Pre.hasGlob() {
+		res.Inc("skipped_source_has_glob_keys")
+		return
+	}
 	if len(k.Attr) > 0 {
 		switch k.Attr[0] {
 		case "layers", "scenarios", "steps", "classes", "vars":
